@@ -215,6 +215,12 @@ func (g *G) genRandom(id string, opt randOpt) *History {
 			rp = g.cacheableReply(at, vary[ri], pick(g, int64(30), 60, 3600))
 			if g.chance(0.25) {
 				rp = Reply{Status: 304, Hdr: Hdr{{"Date", dateAt(at, 0)}, {"X-New", "n"}}, BodyFail: -1}
+				if opt.vary && g.chance(0.4) {
+					// a 304 carries the Vary of the 200 it stands for (RFC 9110 §15.4.5) — the current one, which may
+					// differ from the stored response's
+					rp.Hdr = append(rp.Hdr, varyHdr(pick(g, vary[ri], vary[ri], pick(g, varyConfigs...)))...)
+					rp.Hdr = append(rp.Hdr, [2]string{"Cache-Control", "max-age=600"})
+				}
 			}
 		}
 		op := Op{Op: "req", AtNs: at, Method: method, URL: url, Hdr: hdr, Replies: []Reply{rp}}
